@@ -32,7 +32,8 @@ RULE = (
     "with consumer requests on / between / across several publications and exactly at the step position, for "
     "NextTime, PreviousTime, LinearTime and StepTime(step in {0,1/4,1/2,1,1/8,3/4,1/3,2/3,1/10,3/10}), scalar and "
     "small gridded payloads, plus a malformed stream (requests before the first / after the last publication, "
-    "pulls before any publication); payload units m, degC, degF (offset units), K, dimensionless, mm/d; a quarter of the cases give the adapter a memory limit (0 / 1.5 payloads / huge) "
+    "pulls before any publication); 40% of the gridded payloads are masked arrays whose missing cells change from "
+    "publication to publication (FLEX info; most of them under a memory limit); payload units m, degC, degF (offset units), K, dimensionless, mm/d; a quarter of the cases give the adapter a memory limit (0 / 1.5 payloads / huge) "
     "with one spill directory per worker process and are preceded by another coupling (other payloads) in the "
     "same process and directory; non-trivial = at least 3 publications, at least two "
     "successful pulls in at least two different publication intervals, one of them strictly between publications; "
@@ -92,8 +93,13 @@ def _gen_case(rng, malformed, kind=None):
         if pubs:
             t += rng.choice(gaps)
         pubs.append(t)
-        ops.append(["push", t, [_val(rng, exact) for _ in range(n)]])
+        op = ["push", t, [_val(rng, exact) for _ in range(n)]]
+        if masked:
+            # missing cells, different from publication to publication (numpy masked array, Mask.FLEX info)
+            op.append([0] * n if rng.random() < 0.25 else [int(rng.random() < 0.35) for _ in range(n)])
+        ops.append(op)
 
+    masked = bool(shape) and rng.random() < 0.4
     if not (malformed and rng.random() < 0.4):
         push()
     for _ in range(nops):
@@ -139,7 +145,7 @@ def _gen_case(rng, malformed, kind=None):
         ops.append(["pull", r])
         if pubs[0] <= r <= pubs[-1]:
             last_req = r if last_req is None else max(r, last_req)
-    mem = rng.choice([0, "mid", "huge"]) if rng.random() < 0.25 else None
+    mem = rng.choice([0, "mid", "huge"]) if rng.random() < (0.6 if masked else 0.25) else None
     # payload units incl. offset units (degC, degF): the interpolant is formed in the payload's own unit
     units = rng.choice(UNITS)
     return {"kind": kind, "step": step, "shape": shape, "exact": exact, "mem": mem, "units": units, "ops": ops}
@@ -149,7 +155,18 @@ def _daily(vals):
     return [["push", d * DAY, [float(v)]] for d, v in enumerate(vals)]
 
 
+def _masked_witness(kind, step, mem):
+    """gridded payload with missing cells that change between publications, spilled buffer (seeded C11_g)"""
+    return {"kind": kind, "step": step, "shape": [2, 2], "exact": kind == "linear", "mem": mem, "units": "m",
+            "ops": [["push", 0, [1.0, 2.0, 3.0, 4.0], [1, 0, 0, 0]], ["push", 8, [5.0, 6.0, 7.0, 8.0], [0, 1, 0, 0]],
+                    ["pull", 0], ["pull", 2], ["pull", 6], ["push", 16, [-1.0, -2.0, -3.0, -4.0], [0, 0, 0, 0]],
+                    ["pull", 8], ["pull", 12], ["push", 32, [0.5, 1.5, 2.5, 3.5], [0, 0, 1, 1]], ["pull", 16], ["pull", 20],
+                    ["pull", 32]]}
+
+
 CORPUS = [
+    _masked_witness("next", None, 0), _masked_witness("prev", None, "mid"), _masked_witness("linear", None, 0),
+    _masked_witness("step", [1, 4], 0), _masked_witness("linear", None, None),
     # offset units: requests strictly inside a gap (seeded C11_e); expected = interpolant in the same unit
     {"kind": "linear", "step": None, "shape": [], "exact": True, "mem": None, "units": "degC",
      "ops": [["push", 0, [10.0]], ["push", 8, [20.0]], ["pull", 0], ["pull", 2], ["pull", 7], ["push", 24, [-4.0]],
@@ -272,16 +289,26 @@ def _run_link(case, ghost):
     out.push_info(fm.Info(time=t0, grid=grid, units=units))
     inp.exchange_info(fm.Info(time=t0, grid=grid, units=units))
     pulls = []
+    has_masks = any(op[0] == "push" and len(op) > 3 for op in case["ops"])
     try:
         for op in case["ops"]:
             if op[0] == "push":
                 vs = ghost_values(op[2]) if ghost else op[2]
                 data = np.array(vs, dtype=float).reshape(shape) if shape else float(vs[0])
+                if len(op) > 3:
+                    data = np.ma.masked_array(data, mask=np.array(op[3], dtype=bool).reshape(shape))
                 out.push_data(data, T(op[1]))
             else:
                 try:
                     d = inp.pull_data(T(op[1]))
-                    vals = [float(x) for x in np.asarray(magnitude(d), dtype=float).reshape(-1)]
+                    m = magnitude(d)
+                    if has_masks:
+                        bits = [int(b) for b in np.ma.getmaskarray(m).reshape(-1)]
+                        raw = np.asarray(np.ma.getdata(m), dtype=float).reshape(-1)
+                        # what sits under a missing cell is not part of the result
+                        pulls.append(["ok", [0.0 if b else float(x) for x, b in zip(raw, bits)], bits])
+                        continue
+                    vals = [float(x) for x in np.asarray(m, dtype=float).reshape(-1)]
                     pulls.append(["ok", vals])
                 except Exception as e:  # noqa
                     pulls.append([err_class(e)])
@@ -325,7 +352,10 @@ def coq_case(case, obs):
     ops = []
     for op in case["ops"]:
         if op[0] == "push":
-            ops.append(C("VPush", Z(op[1]), L(Qf(v) for v in op[2])))
+            if len(op) > 3:
+                ops.append(C("VPushM", Z(op[1]), L(Qf(v) for v in op[2]), L(B(b) for b in op[3])))
+            else:
+                ops.append(C("VPush", Z(op[1]), L(Qf(v) for v in op[2])))
         else:
             ops.append(C("VPull", Z(op[1])))
     return C("mk_case", _kind_term(case), N(obs["n"]), B(case["exact"]), L(ops))
@@ -336,7 +366,10 @@ def coq_obs(case, obs):
     for r in obs["pulls"]:
         if r[0] == "ok":
             if all(np.isfinite(v) for v in r[1]):
-                res.append(C("VOk", L(Qf(v) for v in r[1])))
+                if len(r) > 2:
+                    res.append(C("VOkM", L(Qf(v) for v in r[1]), L(B(b) for b in r[2])))
+                else:
+                    res.append(C("VOk", L(Qf(v) for v in r[1])))
             else:
                 res.append("VOther")
         elif r[0] == "TimeError":
@@ -367,9 +400,25 @@ def definition(kind, step, times, vals, t):
     return vals[i_hi] if w > Fraction(step[0], step[1]) else vals[i_lo]
 
 
+def missing_definition(kind, step, times, miss, t):
+    """is the cell missing in the result?  (miss = the cell's missing flag per publication)"""
+    i_hi = bisect_left(times, t)
+    i_lo = bisect_right(times, t) - 1
+    if kind == "next":
+        return miss[i_hi]
+    if kind == "prev":
+        return miss[i_lo]
+    if i_lo == i_hi:
+        return miss[i_lo]
+    if kind == "linear":
+        return miss[i_lo] or miss[i_hi]      # computed from both neighbours
+    w = Fraction(t - times[i_lo], times[i_hi] - times[i_lo])
+    return miss[i_hi] if w > Fraction(step[0], step[1]) else miss[i_lo]
+
+
 def _walk(case, obs):
     """yields (op, result, verdict, info) for every pull that is inside the property's domain"""
-    times, vals = [], []
+    times, vals, miss = [], [], []
     last = None
     it = iter(obs["pulls"])
     n = obs["n"]
@@ -381,6 +430,7 @@ def _walk(case, obs):
                 return fails, stats  # outside the domain from here on
             times.append(op[1])
             vals.append([Fraction(v) for v in op[2]])
+            miss.append([bool(b) for b in op[3]] if len(op) > 3 else [False] * len(op[2]))
             stats["pubs"] += 1
             continue
         t = op[1]
@@ -407,8 +457,16 @@ def _walk(case, obs):
         if not on_pub:
             stats["between"] += 1
         stats["intervals"].add(bisect_left(times, t))
+        got_missing = r[2] if len(r) > 2 else [0] * n
         for j in range(n):
             col = [v[j] for v in vals]
+            want_missing = missing_definition(case["kind"], case["step"], times, [m[j] for m in miss], t)
+            if bool(got_missing[j]) != want_missing:
+                fails.append(f"{case['kind']} at t={t} cell {j}: delivered {'a missing cell' if got_missing[j] else repr(r[1][j])}, "
+                             f"the publication(s) it is computed from {'have it missing' if want_missing else 'have a value there'}")
+                break
+            if want_missing:
+                continue
             want = definition(case["kind"], case["step"], times, col, t)
             got = Fraction(r[1][j])
             scale = 1 + max(abs(x) for x in col)
@@ -442,13 +500,15 @@ def distribution(cases, obss):
     nops = Counter(min(len(c["ops"]) // 10 * 10, 40) for c in cases)
     mems = Counter(str(c.get("mem")) for c in cases)
     units = Counter(c.get("units", "m") or "dimensionless" for c in cases)
-    return {"kinds": dict(kinds), "step_positions": dict(steps), "payload_shapes": dict(shapes), "memory_limit": dict(mems), "payload_units": dict(units),
+    return {"kinds": dict(kinds), "step_positions": dict(steps), "payload_shapes": dict(shapes), "memory_limit": dict(mems),
+            "masked_payload_cases": sum(1 for c in cases if any(o[0] == "push" and len(o) > 3 for o in c["ops"])), "payload_units": dict(units),
             "pull_results": dict(res), "exact_dyadic_linear_cases": exact, "ops_per_case_bucket": dict(nops)}
 
 
 def shrink_candidates(case):
     ops = case["ops"]
     if case["shape"]:
-        yield dict(case, shape=[], ops=[[o[0], o[1], o[2][:1]] if o[0] == "push" else o for o in ops])
+        if not any(o[0] == "push" and len(o) > 3 for o in ops):
+            yield dict(case, shape=[], ops=[[o[0], o[1], o[2][:1]] if o[0] == "push" else o for o in ops])
     for i in range(len(ops) - 1, -1, -1):
         yield dict(case, ops=ops[:i] + ops[i + 1:])
